@@ -245,7 +245,7 @@ func (e *Engine) siteStore(st *State, fr *Frame, loc *Loc, val Val, pos token.Po
 						continue
 					}
 				}
-				e.siteStoreField(st, fr, &fl, typeKey(loc.T)+"."+stt.Field(i).Name(), fv, pos)
+				e.siteStoreField(st, fr, &fl, typeKey(loc.T)+"."+fieldName(stt.Field(i)), fv, pos)
 			}
 			off += n
 		}
@@ -314,7 +314,7 @@ func (e *Engine) lockKeyFor(loc *Loc, lockCls string) string {
 		return ""
 	}
 	for i := 0; i < st.NumFields(); i++ {
-		if st.Field(i).Name() == parts[1] {
+		if fieldName(st.Field(i)) == parts[1] {
 			off, _ := e.fieldOffset(st, i)
 			l := &Loc{Kind: LHeap, Obj: loc.Obj, Root: loc.Root, Off: off, T: st.Field(i).Type()}
 			return l.key(e)
@@ -396,7 +396,7 @@ func (e *Engine) mapFieldClass(v ssa.Value) string {
 	if u, ok := v.(*ssa.UnOp); ok && u.Op == token.MUL {
 		if fa, ok := u.X.(*ssa.FieldAddr); ok {
 			st := fa.X.Type().Underlying().(*types.Pointer).Elem()
-			return typeKey(st) + "." + st.Underlying().(*types.Struct).Field(fa.Field).Name()
+			return typeKey(st) + "." + fieldName(st.Underlying().(*types.Struct).Field(fa.Field))
 		}
 		if a, ok := u.X.(*ssa.Alloc); ok {
 			return "var:" + e.allocName(a)
@@ -693,7 +693,7 @@ func (e *Engine) havocField(st *State, cls string) {
 		return
 	}
 	for i := 0; i < stt.NumFields(); i++ {
-		if stt.Field(i).Name() != parts[1] {
+		if fieldName(stt.Field(i)) != parts[1] {
 			continue
 		}
 		off, n := e.fieldOffset(stt, i)
@@ -1218,7 +1218,7 @@ func (e *Engine) scanMods(ms *modSet, fn *ssa.Function, blocks map[*ssa.BasicBlo
 					}
 				case *ssa.FieldAddr:
 					st := r.X.Type().Underlying().(*types.Pointer).Elem()
-					ms.fields[typeKey(st)+"."+st.Underlying().(*types.Struct).Field(r.Field).Name()] = true
+					ms.fields[typeKey(st)+"."+fieldName(st.Underlying().(*types.Struct).Field(r.Field))] = true
 					ms.fieldTypes(st, r.Field)
 				case *ssa.IndexAddr:
 					var elem types.Type
@@ -1743,7 +1743,7 @@ func (e *Engine) lockClassOfField(cls string) (string, bool) {
 	}
 	if st, ok := t.Underlying().(*types.Struct); ok {
 		for i := 0; i < st.NumFields(); i++ {
-			if st.Field(i).Name() == parts[1] {
+			if fieldName(st.Field(i)) == parts[1] {
 				k := typeKey(st.Field(i).Type())
 				if k == "sync.Mutex" || k == "sync.Once" || k == "sync.RWMutex" || k == "sync.WaitGroup" || k == "sync.Map" || strings.HasPrefix(k, "sync/atomic.") {
 					return k, true // synchronisation objects: safe for concurrent use by construction
